@@ -355,23 +355,43 @@ func c18start(s *vt.Sink) {
 			tr.Emit("panic", "why", fmt.Sprint(p))
 		}
 	}()
+	// the rest of the configuration must not matter: the client's transport protocol (none
+	// chosen, UDP, multicast, TCP), a server with or without UDP / multicast listeners
+	protoOf := func(v int) *gortsplib.Protocol {
+		if v == 0 {
+			return nil
+		}
+		p := []gortsplib.Protocol{gortsplib.ProtocolUDP, gortsplib.ProtocolUDPMulticast, gortsplib.ProtocolTCP}[v-1]
+		return &p
+	}
 	for _, obj := range []string{"client", "server"} {
 		for _, maxps := range []int{0, 1, 100, 1471, 1472, 1473, 2000, 65536} {
 			for _, wq := range []int{0, 1, 2, 3, 8, 100, 256, 257, 1024} {
-				var err error
-				if obj == "client" {
-					c := &gortsplib.Client{MaxPacketSize: maxps, WriteQueueSize: wq}
-					if err = c.Start(); err == nil {
-						c.Close()
-					}
-				} else {
-					sv := &gortsplib.Server{Handler: &c18nullHandler{}, RTSPAddress: "127.0.0.1:0",
-						MaxPacketSize: maxps, WriteQueueSize: wq}
-					if err = sv.Start(); err == nil {
-						sv.Close()
-					}
+				variants := 4
+				if obj == "server" {
+					variants = 2
 				}
-				tr.Emit("startcfg", "obj", obj, "maxps", maxps, "wq", wq, "accepted", err == nil)
+				for v := 0; v < variants; v++ {
+					var err error
+					if obj == "client" {
+						c := &gortsplib.Client{MaxPacketSize: maxps, WriteQueueSize: wq, Protocol: protoOf(v)}
+						if err = c.Start(); err == nil {
+							c.Close()
+						}
+					} else {
+						sv := &gortsplib.Server{Handler: &c18nullHandler{}, RTSPAddress: "127.0.0.1:0",
+							MaxPacketSize: maxps, WriteQueueSize: wq}
+						if v == 1 {
+							port := bed.FreeUDPPair("127.0.0.1")
+							sv.UDPRTPAddress = fmt.Sprintf("127.0.0.1:%d", port)
+							sv.UDPRTCPAddress = fmt.Sprintf("127.0.0.1:%d", port+1)
+						}
+						if err = sv.Start(); err == nil {
+							sv.Close()
+						}
+					}
+					tr.Emit("startcfg", "obj", obj, "maxps", maxps, "wq", wq, "accepted", err == nil, "variant", v)
+				}
 			}
 		}
 	}
